@@ -118,9 +118,9 @@ Proof.
   rewrite B. reflexivity.
 Qed.
 
-Lemma translate_stale d x : stale d x -> x <> INone -> translate d x = Ok INone.
+Lemma translate_stale d x : stale d x -> translate d x = Ok INone.
 Proof.
-  intros [H1 [H2 [H3 [H4 [H5 H6]]]]] Hn. unfold translate.
+  intros [H1 [H2 [H3 [H4 [H5 H6]]]]]. unfold translate.
   apply py_in_false in H1. rewrite H1. apply py_index_none in H2. rewrite H2.
   rewrite (mr_branch_none d x H3). apply py_index_none in H4. rewrite H4.
   destruct (py_int x) as [z| |] eqn:Ez.
@@ -131,20 +131,49 @@ Proof.
     exfalso. apply H6. exists z. split; [exact Ez|].
     apply andb_true_iff in B. destruct B as [B1 B2]. apply Z.leb_le in B1. apply Z.ltb_lt in B2. lia.
   - reflexivity.
-  - destruct x; simpl in Ez; try discriminate; try congruence.
-    destruct (parse_int s); discriminate.
+  - reflexivity.
 Qed.
 
-(* None itself: re-translation of a stale id that was rewritten to None *)
-Lemma translate_none_raises d :
-  ~ L_alias d INone -> ~ L_eid d INone -> ~ L_svid d INone -> translate d INone = Raise TypeErr.
+Lemma not_mrstr_none d : ~ L_mrstr d INone.
 Proof.
-  intros H1 H2 H4. unfold translate. apply py_in_false in H1. rewrite H1.
+  intros [_ Hin]. unfold nonins_strs in Hin. apply in_map_iff in Hin.
+  destruct Hin as [it [E _]]. discriminate.
+Qed.
+
+(* None itself (a null in an id list, or the re-translation of a stale id that an earlier shim
+   rewrote to None in the caller's dict) is a fixed point: the repaired code catches TypeError *)
+Lemma translate_none d : ~ L_eid d INone -> ~ L_svid d INone -> translate d INone = Ok INone.
+Proof.
+  intros H2 H4. unfold translate. destruct (py_in INone (aliases d)); [reflexivity|].
   apply py_index_none in H2. rewrite H2.
-  assert (H3 : ~ L_mrstr d INone).
-  { intros [_ Hin]. unfold nonins_strs in Hin. apply in_map_iff in Hin.
-    destruct Hin as [it [E _]]. discriminate. }
-  rewrite (mr_branch_none d INone H3). apply py_index_none in H4. rewrite H4. reflexivity.
+  rewrite (mr_branch_none d INone (not_mrstr_none d)). apply py_index_none in H4. rewrite H4.
+  reflexivity.
+Qed.
+
+(* the cascade is total: no identifier makes it raise (the int() of the special MR branch is only
+   reached with str(id) of an element whose id is an int) *)
+Lemma translate_total d x : ~ In INone (raw_ids d) -> exists a, translate d x = Ok a.
+Proof.
+  intros HN. unfold translate.
+  destruct (py_in x (aliases d)); [eexists; reflexivity|].
+  destruct (py_index x (raw_ids d)) as [i|] eqn:E2; [eexists; reflexivity|].
+  destruct (mr_branch d x) as [r|] eqn:E3.
+  - unfold mr_branch in E3. cbv zeta in E3. destruct (d_mr_ins d); [|discriminate E3].
+    fold (nonins_strs d) in E3.
+    destruct (py_in x (nonins_strs d)) eqn:Ein; [|discriminate E3]. injection E3 as E3'. subst r.
+    apply py_in_In in Ein. unfold nonins_strs in Ein. apply in_map_iff in Ein.
+    destruct Ein as [it [Ex Hit]]. apply filter_In in Hit. destruct Hit as [Hit _].
+    assert (Hraw : In (i_eid it) (raw_ids d)) by (unfold raw_ids; apply in_map; exact Hit).
+    destruct (i_eid it) as [z|s|] eqn:Eid; simpl in Ex.
+    + subst x. rewrite py_int_dec.
+      destruct (py_index (IInt z) (raw_ids d)) as [i|] eqn:E4; [eexists; reflexivity|].
+      exfalso. apply py_index_none in E4. exact (E4 Hraw).
+    + subst x. exfalso. apply py_index_none in E2. exact (E2 Hraw).
+    + exfalso. exact (HN Hraw).
+  - destruct (py_index x (subvar_ids d)); [eexists; reflexivity|].
+    destruct (py_int x) as [z| |]; try (eexists; reflexivity).
+    destruct (py_index (IInt z) (raw_ids d)); [eexists; reflexivity|].
+    destruct ((0 <=? z)%Z && (z <? Z.of_nat (List.length (aliases d)))%Z)%bool; eexists; reflexivity.
 Qed.
 
 (* every result is None or an alias of the dimension *)
@@ -180,6 +209,7 @@ Proof.
                      apply andb_true_iff in B. destruct B as [B1 B2].
                      apply Z.leb_le in B1. apply Z.ltb_lt in B2. lia.
                  --- inversion H; subst. left. reflexivity.
+           ++ inversion H; subst. left. reflexivity.
            ++ inversion H; subst. left. reflexivity.
 Qed.
 
@@ -331,22 +361,23 @@ Section WF.
       + apply Hnum. apply py_int_dec.
   Qed.
 
-  (* re-translating None raises (this is what breaks idempotence, see Props/C18.v) *)
-  Lemma wf_translate_none : translate d INone = Raise TypeErr.
+  Lemma wf_ids_not_none : ids_not_none d.
   Proof.
-    apply translate_none_raises.
-    - intros H. pose proof (wf_al_str d W) as F. rewrite Forall_forall in F.
-      destruct (F _ H) as [s E]. discriminate.
+    split.
     - intros H. pose proof (wf_eid_int d W) as F. rewrite Forall_forall in F.
       destruct (F _ H) as [z E]. discriminate.
     - intros H. pose proof (wf_sv_str d W) as F. rewrite Forall_forall in F.
       destruct (F _ H) as [s E]. discriminate.
   Qed.
 
+  (* re-translating None gives None (idempotence of the shim, see Props/C18.v) *)
+  Lemma wf_translate_none : translate d INone = Ok INone.
+  Proof. destruct wf_ids_not_none as [A B]. apply translate_none; assumption. Qed.
+
   Lemma wf_translate_ref ok x : ref d ok x -> translate d x = Ok (oalias d ok).
   Proof.
     destruct ok as [k|]; simpl.
     - intros [Hk S]. apply wf_translate_spelling; assumption.
-    - intros [S N]. apply translate_stale; assumption.
+    - intros S. apply translate_stale; assumption.
   Qed.
 End WF.
